@@ -313,6 +313,14 @@ func (e *Exec) applyHavoc(st *State, h *hctx, fn *ssa.Function, resType types.Ty
 				}
 				continue
 			}
+			if strings.HasPrefix(l.key, "G|") {
+				e.checkGhostWrite(st, l.key, h.callPos)
+				st.Ghost[l.key] = e.fresh("g."+l.key[2:], BV64)
+				if e.disc != nil {
+					e.disc.ghost[l.key] = true
+				}
+				continue
+			}
 			e.havocLoc(st, l.key, l.addr, h.callPos)
 		}
 		e.spec = saveSpec
@@ -435,6 +443,13 @@ func (e *Exec) verifIntrinsic(fr *frame, st *State, name string, fn *ssa.Functio
 	case "verif_target":
 		e.curH().atTarget = true
 		return unit
+	case "verif_modifies_ghost":
+		h := e.curH()
+		h.hasMod = true
+		h.frame.locs = append(h.frame.locs, frameLoc{"G|" + args[0].Name, NilAddr})
+		return unit
+	case "verif_ghost_int":
+		return e.ghostInt(st, args[0].Name)
 	case "verif_modifies_all":
 		h := e.curH()
 		h.hasMod = true
@@ -626,5 +641,34 @@ func (e *Exec) addFrameLocs(fs *frameSpec, a *smt.Term, t types.Type) {
 	default:
 		e.heapSort[cellKey(t)] = smt.Array(AddrS, s)
 		fs.locs = append(fs.locs, frameLoc{cellKey(t), a})
+	}
+}
+
+func (e *Exec) ghostInt(st *State, name string) *smt.Term {
+	if v, ok := st.Ghost["G|"+name]; ok {
+		return v
+	}
+	return smt.Var("g0|"+name, BV64)
+}
+
+// checkGhostWrite: a ghost variable may only change if the active frame lists it.
+func (e *Exec) checkGhostWrite(st *State, key string, pos token.Pos) {
+	for i := len(e.fstack) - 1; i >= 0; i-- {
+		fs := e.fstack[i]
+		if fs == nil {
+			return
+		}
+		if fs.all {
+			continue
+		}
+		ok := false
+		for _, l := range fs.locs {
+			if l.key == key {
+				ok = true
+			}
+		}
+		if !ok {
+			e.check(st, "frame", smt.False, pos, "")
+		}
 	}
 }
